@@ -73,6 +73,36 @@ def run(ctx, replay=None):
     quick = ctx.tier == 'quick'
     traces = []
 
+    # 0. behaviours with an eviction tick wait for the pool's own one-minute ticker: simulate them first and let ONE driver
+    #    process replay them (concurrently) in the background while TLC does the exhaustive runs
+    import threading
+    cfgfile, tcfg = CFGS['e']
+    num, depth = (24, 30) if quick else (120, 36)
+    r, ts = tlc.simulate_traces(SPEC, MODULE, cfgfile, num, depth, ctx.seed, drop_vars=DROP, timeout=900)
+    ctx.add_tlc('TxPool/sim-e', r, exhaustive=False)
+    if r.violation:
+        ctx.inconclusive.append('spec property %s violated on a simulated behaviour of config e' % r.violation)
+    ev = []
+    for k, t in enumerate(ts):
+        # an eviction tick costs a minute of real time: keep behaviours that contain one, cut shortly after it
+        idx = [i for i, s in enumerate(t['steps']) if s['a'] == 'Evict']
+        if not idx:
+            continue
+        t['steps'] = t['steps'][:min(len(t['steps']), idx[0] + 6)]
+        t['cfg'] = dict(tcfg, mode='model')
+        t['id'] = 'sim-e-%d-%d' % (ctx.seed, k)
+        ev.append(t)
+    ctx.log('simulated e: %d behaviours, %d with an eviction tick' % (len(ts), len(ev)))
+    box = {}
+
+    def evrun():
+        try:
+            box['rep'] = engine.run_driver(ctx, 'txpool', ev, env={'TMPDIR': TMP}, timeout=1200) if ev else None
+        except Exception as e:  # noqa
+            box['err'] = e
+    th = threading.Thread(target=evrun)
+    th.start()
+
     # 1. TxPool exhaustive; edge cover of the smallest configuration's state graph
     for name in (['t', 'g3'] if quick else ['t', 'g', 'g3', 'm']):
         cfgfile, tcfg = CFGS[name]
@@ -140,7 +170,7 @@ def run(ctx, replay=None):
     ctx.cov['spec_sensitivity'] = wit
 
     # 4. simulated behaviours of the large universe (two accounts, admin ops, limits 3/3); with eviction ticks
-    sims = [('l', 80, 40), ('qs', 40, 30), ('e', 24, 30)] if quick else [('l', 700, 50), ('qs', 300, 40), ('gs', 150, 30), ('e', 120, 36)]
+    sims = [('l', 80, 40), ('qs', 40, 30)] if quick else [('l', 700, 50), ('qs', 300, 40), ('gs', 150, 30)]
     for name, num, depth in sims:
         cfgfile, tcfg = CFGS[name]
         r, ts = tlc.simulate_traces(SPEC, MODULE, cfgfile, num, depth, ctx.seed, drop_vars=DROP, timeout=900)
@@ -152,12 +182,6 @@ def run(ctx, replay=None):
             if r.trace:
                 traces.append(from_tlc_trace(r.trace, tcfg, 'sim-counterexample-%s-%d' % (name, ctx.seed)))
         for k, t in enumerate(ts):
-            if name == 'e':
-                # an eviction tick costs a minute of real time: keep behaviours that contain one, cut after it
-                idx = [i for i, s in enumerate(t['steps']) if s['a'] == 'Evict']
-                if not idx:
-                    continue
-                t['steps'] = t['steps'][:min(len(t['steps']), idx[0] + 6)]
             t['cfg'] = dict(tcfg, mode='model')
             t['id'] = 'sim-%s-%d-%d' % (name, ctx.seed, k)
             traces.append(t)
@@ -201,19 +225,8 @@ def run(ctx, replay=None):
     else:
         ctx.inconclusive.append('binding self-test: no probe trace found')
 
-    # eviction behaviours all wait for the same real minute: keep them in ONE driver process
-    ev = [t for t in traces if t['cfg'].get('evict')]
-    rest = [t for t in traces if not t['cfg'].get('evict')]
-    import threading
-    box = {}
-
-    def evrun():
-        try:
-            box['rep'] = engine.run_driver(ctx, 'txpool', ev, env={'TMPDIR': TMP}, timeout=1200) if ev else None
-        except Exception as e:  # noqa
-            box['err'] = e
-    th = threading.Thread(target=evrun)
-    th.start()
+    rest = traces
+    traces = rest + ev
     rep = run_parallel(ctx, 'txpool', rest, n=W - 1, env={'TMPDIR': TMP})
     engine.collect(ctx, rep, rest, 'txpool')
     th.join()
